@@ -79,6 +79,7 @@ def s_case(draw):
     schedule = draw(st.lists(st.integers(0, 3), max_size=40))
     return {"threads": threads, "fault": fault, "schedule": schedule, "fault_base": draw(st.booleans()),
             "fault_len": draw(st.sampled_from([1, 1, 1, 2, 3])),      # how many consecutive calls on the target raise
+            "failfast": draw(st.sampled_from(["off", "off", "target", "forwarders", "both"])),
             "scratch_tags": draw(st.booleans())}
 
 
@@ -92,6 +93,8 @@ def execute(spec, schedule=None):
     calls = [0]
     open_switch = [0]
     target_inner = Ext()
+    if spec.get("failfast") in ("target", "both"):
+        target_inner.failfast = True
 
     def hook(a, b):
         if sem.count == 0:
@@ -125,6 +128,8 @@ def execute(spec, schedule=None):
 
     def make(tid, ops):
         fwd = testtools.ThreadsafeForwardingResult(target, sem)
+        if spec.get("failfast") in ("forwarders", "both"):
+            fwd.failfast = True
         tagm = H.TagModel()
         rep = []
         reports.append(rep)
@@ -319,7 +324,7 @@ def run_case(spec):
     vs, stats, _ = execute(spec)
     nt = stats["open_switches"] > 0 or stats["fault_hit"]
     return Case(vs, nt, ["threads=%d" % len(spec["threads"]), "fault" if stats["fault_hit"] else "no-fault",
-                         "open-switch" if stats["open_switches"] else "no-open-switch",
+                         "open-switch" if stats["open_switches"] else "no-open-switch", "failfast=" + spec.get("failfast", "off"),
                          "switches=%d" % min(stats["switches"], 9)], stats)
 
 
